@@ -42,6 +42,10 @@ class Target:
     arity: int
     with_default: bool
     order: tuple  # parameter index taken by positional slot j
+    names: tuple = ()  # parameter names when they are not p0, p1, ...
+
+    def pname(self, i):
+        return self.names[i] if self.names else "p%d" % i
 
     @property
     def label(self):
@@ -133,6 +137,30 @@ def _fn_var_keyword(p0, **more):
 
 
 TARGETS[("fnvarkw", 2, True)] = Target("fnvarkw", symbolic_function(_fn_var_keyword), 2, True, (0, 1))
+@dataclass(eq=False)
+class PredDerived(Predicate):
+    """derives state from its arguments when it is constructed (the concrete call constructs it anew for every binding)"""
+
+    p0: Any
+    p1: Any
+    derived: Any = field(init=False, default=None)
+
+    def __post_init__(self):
+        self.derived = (self.p0, self.p1)
+
+    def __call__(self):
+        LOG.append(self.derived)
+        return body(self.derived)
+
+
+def _fn_parameter_called_name(p0, name=DEFAULT):
+    """a parameter that is literally called `name`"""
+    LOG.append((p0, name))
+    return body((p0, name))
+
+
+TARGETS[("fnname", 2, True)] = Target("fnname", symbolic_function(_fn_parameter_called_name), 2, True, (0, 1), names=("p0", "name"))
+TARGETS[("predderived", 2, False)] = Target("predderived", PredDerived, 2, False, (0, 1))
 TARGETS[("predexpensive", 2, False)] = Target("predexpensive", PredExpensive, 2, False, (0, 1))
 
 
@@ -169,7 +197,7 @@ def harness(t: Target, kinds, npos, omit, N):
         y = let(P, ys, name="y")
         given = [x if kd == "X" else y if kd == "Y" else x.b if kd == "A" else ks[j] for j, kd in enumerate(kinds)]
         args = given[:npos]
-        kwargs = {"p%d" % t.order[j]: given[j] for j in range(npos, len(given))}
+        kwargs = {t.pname(t.order[j]): given[j] for j in range(npos, len(given))}
         symbolic = any(kd in "XYA" for kd in kinds)
         r = t.call(*args, **kwargs)
         v = {}
@@ -368,7 +396,7 @@ def merge_case():
 def shape_name(t: Target, kinds, npos, omit):
     parts = []
     for j, kd in enumerate(kinds):
-        parts.append(("" if j < npos else "p%d=" % t.order[j]) + {"X": "x", "Y": "y", "C": "k", "A": "x.b"}[kd])
+        parts.append(("" if j < npos else "%s=" % t.pname(t.order[j])) + {"X": "x", "Y": "y", "C": "k", "A": "x.b"}[kd])
     return "%s(%s)%s" % (t.label, ",".join(parts), "+default" if omit else "")
 
 
